@@ -3,6 +3,7 @@
 import AiuVerif.Lemmas.Overlap
 import AiuVerif.Lemmas.OverlapSpace
 import AiuVerif.Model.OverlapSort
+import AiuVerif.Lemmas.OverlapNoAssert
 
 namespace AiuVerif.Overlap
 
@@ -83,5 +84,63 @@ theorem detectAll_tid_zip (next : Nat → Nat → Option Nat) (fuel : Nat) :
       rcases hp with hp | hp
       · subst hp; exact ⟨rfl, rfl, Reach.refl _⟩
       · exact hr p hp
+
+/-- the families of the really built tid space are disjoint (`owns_unique`) -/
+theorem famDisj_built (n : Nat) (evs : List Ev) : FamDisj (nextOf (buildSpaces n evs)) evs := by
+  intro a ha b hb hxa hxb hp t hra hrb
+  have hma := seenOf_foldl_mem evs [] a ha hxa
+  have hmb := seenOf_foldl_mem evs [] b hb hxb
+  rw [← hp] at hmb
+  have hnx := nextOf_buildSpaces n evs a.pid
+  exact owns_unique (owns_reach hnx (owns_self hma) hra) (owns_reach hnx (owns_self hmb) hrb)
+
+theorem reach_none {nx : Nat → Option Nat} (h : ∀ t, nx t = none) {a t : Nat} (hr : Reach nx a t) :
+    t = a := by
+  cases hr with
+  | refl => rfl
+  | step hs _ => rw [h] at hs; cases hs
+
+/-- with no tid space (-O drop) a family is the lane itself -/
+theorem famDisj_nil (evs : List Ev) : FamDisj (nextOf []) evs := by
+  intro a _ b _ _ _ _ t hra hrb
+  have h0 : ∀ p t, nextOf [] p t = none := fun _ _ => rfl
+  rw [← reach_none (h0 _) hra, ← reach_none (h0 _) hrb]
+
+/-- -O drop never reaches `find_next_tid`: its only error results are the two asserts -/
+theorem detect_drop_err (next : Nat → Nat → Option Nat) (fuel : Nat) (st : Lanes) (ev : Ev) (e : Err)
+    (h : detect .drop next fuel st ev = .error e) : e = .assertOrder ∨ e = .assertState := by
+  unfold detect at h
+  simp only [] at h
+  split at h
+  · injection h with h; exact Or.inl h.symm
+  split at h
+  · injection h with h; exact Or.inr h.symm
+  split at h
+  · cases h
+  split at h
+  · cases h
+  · cases h
+
+theorem detectAll_drop_err (next : Nat → Nat → Option Nat) (fuel : Nat) :
+    ∀ (evs : List Ev) (st : Lanes) (e : Err),
+      detectAll .drop next fuel st evs = .error e → e = .assertOrder ∨ e = .assertState := by
+  intro evs
+  induction evs with
+  | nil => intro st e h; simp [detectAll] at h
+  | cons ev rest ih =>
+    intro st e h
+    simp only [detectAll] at h
+    split at h
+    · rename_i e' hstep
+      injection h with h; subst h
+      unfold step at hstep
+      split at hstep
+      · exact detect_drop_err next fuel st ev _ hstep
+      · cases hstep
+    · split at h
+      · rename_i e' hrest
+        injection h with h; subst h
+        exact ih _ _ hrest
+      · cases h
 
 end AiuVerif.Overlap
